@@ -35,7 +35,7 @@ CHECKS = [
         "n_obs - #conditions; every list branch of cov_from_residuals/measurements/unbalanced returns element i = single-input estimate of "
         "element i with dof None / dof / dof[i]; every prec_from_* returns inv(cov) per element for list, 3-D and 2-D covariances. Engine B "
         "(real functions on sympy object arrays) proves full = Xc'Xc/dof, diag = its diagonal, symmetry and measurement-based = unbalanced "
-        "for all real values at small shapes. Shrinkage convexity / lambda in [0,1] / PSD / numeric inverse are bounded run-time oracle "
+        "for all real values at small shapes. Engine A also proves for all inputs that the shrinkage factor of _covariance_diag lies in [0,1] and leaves the diagonal untouched. Shrinkage target of _covariance_eye / PSD / numeric inverse are bounded run-time oracle "
         "checks (not counted as proved).",
         "Assumed: np.linalg.inv, np.mean, einsum as uninterpreted/pure; get_unique_inverse contract (bounded oracle); reals for floats; "
         "engine-B proxy overrides listed in evidence. Bounded: shapes <= 4x3 (B), n<=12,p<=8 (C).",
@@ -98,7 +98,7 @@ CHECKS = [
         'DESIGN.md C09'),
     chk('C10', 'other',
         'Lemma layer (z3): the condensed index is a bijection onto [0,n(n-1)/2) increasing in lexicographic order, row offsets, order-isomorphism of kept pairs under a monotone re-indexing. Engine A: the number of conditions is recovered from the vector length for EVERY size (both helpers; exact sqrt/ceil below 2^52 assumed); bool_index / num_index select exactly the entries with a requested value (scalar or list), each once, in original order; extract_dict / subset_descriptor gather every column by the given index sequence and leave the source dictionary alone; RDMs.subset keeps exactly the RDMs with a requested value in source order and gathers dissimilarity rows and every rdm descriptor by that one selection -- for all descriptor columns, values and index sequences. Per-operation behaviour against an abstract view with ghost ids (exhaustive short sequences, seeded long histories, concat / from_partials / permute_rdms domains): bounded oracle tier.',
-        'subset_pattern / subsample_pattern / reorder / concat / from_partials are not symbolically executed (bounded tier); library models np.where / np.any(axis=0) / array==scalar; 9 open defect classes in known_findings.json',
+        'subset_pattern / subsample_pattern / reorder / concat / from_partials are not symbolically executed (bounded tier); library models np.where / np.any(axis=0) / array==scalar; 4 open defect classes in known_findings.json',
         'contract-based deductive verification: ast->z3 VC generation on the real selection helpers and RDMs.subset (filter summaries of conditional loops), z3 lemma layer, + model-based bounded histories',
         'DESIGN.md C10'),
     chk('C11', 'other',
@@ -122,13 +122,13 @@ CHECKS = [
         'mechanical extraction of kernel expressions + z3 obligations (C semantics stated) + bounded run-time oracles on the binary',
         'DESIGN.md C15'),
     chk('C16', 'exploration',
-        "File formats depend on h5py / pickle: real round trips in temporary directories for all object kinds, formats, targets, overwrite modes and post-history objects are bounded run-time oracles. Deductive part: engine A proves the TOTALITY of the HDF5 writer _write_to_group on the real AST per admitted value type (str, ndarray, list, dict, nested dict, None, int, float, bool, tuples): exactly one store under the entry's key, nothing silently dropped.",
-        "h5py, pickle assumed; 4 open findings (unicode arrays, ragged lists, mixed lists, '/' in keys)",
+        "File formats depend on h5py / pickle: real round trips in temporary directories for all object kinds, formats, targets, overwrite modes and post-history objects are bounded run-time oracles. Deductive part: engine A proves the TOTALITY of the HDF5 writer _write_to_group on the real AST per admitted value type (str, ndarray, list, dict, nested dict, None, int, float, bool, tuples): exactly one store under the entry's key, nothing silently dropped; and on RDMs.to_dict / rdms_from_dict that every field of the dictionary form (dissimilarities, measure, descriptors, rdm / pattern descriptors) is the object's own field and is handed to the constructor under the same name (27 obligations). Bounded tier after the dimension sweeps: typed arrays, full-precision and extreme values, 25 further descriptor kinds, path spellings, existing files of every kind, call sequences, a second interpreter with another hash seed.",
+        "h5py, pickle assumed; 2 open findings (mixed lists, '/' in keys: format changes); the other HDF5 defects found were repaired in /repo",
         'bounded run-time round-trip oracles (stand-in) + ast->z3 totality obligations on the writer',
         'DESIGN.md C16'),
     chk('C17', 'other',
         'Lemma layer (z3 NRA): sqrt is strictly increasing and tie-preserving on non-negatives, positive affine maps preserve order and ties, the clipped-linear map is monotone into [0,1], max(x,0) is monotone -- with the C03 formula contracts these give the invariance clauses; Lean: cosine invariant under positive scaling. Engine B: sqrt_transform = sqrt(max(x,0)) and positive_transform = max(x,0) for all reals under all 27 sign patterns. Engine A: rank_transform ranks each RDM among its non-missing entries with the REQUESTED tie method (scipy rankdata with nan_policy omit) and keeps all descriptors. Quantile thresholds, geodesic, descriptors, invariance of the real compare(): bounded oracle tier.',
-        'scipy rankdata / np.quantile / networkx assumed; 2 open findings (geodesic drops the minimal edge; positive_transform keeps the measure name)',
+        'scipy rankdata / np.quantile / networkx assumed; 1 open finding (positive_transform keeps the measure name); the other defects found were repaired in /repo',
         'z3/Lean lemma layer + engine B + bounded run-time oracles',
         'DESIGN.md C17'),
     chk('C18', 'exploration',
@@ -143,7 +143,7 @@ CHECKS = [
         'DESIGN.md C19'),
     chk('C20', 'other',
         "Deductive tier (structured strings in engine A): the real BidsFile._deconstruct/_findEntity and BidsLayout._replace are symbolically executed on path strings whose entity values are ATOMS (arbitrary non-empty alphanumeric tokens), for all 2^6 presence/absence combinations of derivative, ses, task, run, space, desc x one-/two-part extensions (enumerated completely): parsing recovers exactly the encoded entities, rebuilding returns the original path, the MRI-sibling and meta look-ups change only the entities they are asked to change -- for ALL entity values. Meadows files, MNE epochs, design matrices (dof, normalisation) and SPM filtering are decided by bounded run-time oracles on generated inputs.",
-        "entity values restricted to the BIDS alphanumeric grammar; os.path.join/normpath/basename models on relative normalised paths; scipy.io, pandas, nibabel (faked) assumed; 3 open findings",
+        "entity values restricted to the BIDS alphanumeric grammar; os.path.join/normpath/basename models on relative normalised paths; scipy.io, pandas, nibabel (faked) assumed; no open finding (eight defects repaired in /repo)",
         "contract-based deductive verification: symbolic execution of the real parser/builder on structured strings (split / prefix / replace decided structurally for all atom values) + bounded run-time oracles",
         'DESIGN.md C20 and 10.8'),
 ]
